@@ -8,7 +8,15 @@ suffix = sys.argv[2] if len(sys.argv) > 2 else ""      # e.g. "-r2" for a second
 wt = "/tmp/seed-%s%s" % (pid, suffix)
 out = "/tmp/seed-%s%s-out" % (pid, suffix)
 EMPH = ""
-if suffix == "-r3":
+if suffix == "-r4":
+    EMPH = (" For this round assume the property is ALREADY guarded by a strong differential-testing harness that covers ordinary inputs, block and"
+            " counter boundaries at 2^32 / 2^38 / 2^64, every SIMD back end, cargo features, build profiles and the common trait methods. Look for a change"
+            " such a harness would plausibly still miss: a threshold in an unusual place (a length, count or value that is not a power of two, or a power"
+            " of two other than the usual ones), an interaction of TWO conditions (a particular back end AND a particular counter range; a feature AND a"
+            " profile), behaviour only after a panic was caught or an error returned, an impl of a rarely used trait (`Debug`, `Default`, `Clone`, `PartialEq`,"
+            " `Drop`, `BlockInput`, `DynDigest::box_clone`, `SyncStreamCipherSeek`), or a dependency on the ORDER in which several objects of different types"
+            " are created or used in one process.")
+elif suffix == "-r3":
     EMPH = (" For this round, look for changes of these kinds (pick two different kinds): (i) a change in a SHARED lower-level crate (ppv-lite86, block-buffer"
             " usage, threefish) that only one consumer or one code path of this property notices; (ii) a change that is invisible through the most common trait"
             " (`digest::Digest` / `StreamCipher`) but visible through another public trait or inherent method of the same type (`FixedOutput`, `FixedOutputDirty`,"
